@@ -32,12 +32,22 @@ def generate(rng, tier):
         interim = i % 4 == 3
         if interim:
             sizes = [rng.choice([12000, 16000])] + sizes[:3]      # ~3-4 s at the aggregator's pace: two or three interim results
+            if i % 8 == 7:
+                sizes = sizes[:1]     # one read command only: nothing can arrive late, the total must be exact
         payloads = [("map select count($line) from . group by $hostname %slogformat generickv" % ("interval 1 " if interim else "")).encode().hex()]
+        nonl = interim and i % 8 == 7          # the long file's last line is not newline-terminated (it still counts)
         for k, sz in enumerate(sizes):
             path = os.path.join(fdir, "m%05d_%d.log" % (i, k))
             with open(path, "w") as f:
-                f.write("".join("k=v%d\n" % j for j in range(sz)))
+                body = "".join("k=v%d\n" % j for j in range(sz))
+                f.write(body[:-1] if nonl and k == 0 and sz else body)
             payloads.append(("cat: %s regex:noop " % path).encode().hex())
+        if i % 10 == 4 and len(sizes) >= 2:
+            # a file that matches, is permitted, but cannot be read (not gzip although named .gz): it contributes nothing,
+            # the other files are accounted for and the session ends
+            bad = os.path.join(fdir, "m%05d_bad.log.gz" % i)
+            open(bad, "w").write("this is not gzip\n" * 3)
+            payloads.append(("cat: %s regex:noop " % bad).encode().hex())      # last: the command indices of the others stay as they are
         # every third session shares its cat limiter with the sessions running next to it (the server-wide limit)
         cases.append({"kind": "server", "payloads": payloads, "cat_limit": rng.choice([1, 2, 3]), "private_limiter": i % 3 != 1,
                       "gap_ms": rng.choice([0, 0, 0, 1, 10]), "read_delay_us": rng.choice([0, 0, 200]),
